@@ -41,6 +41,8 @@ def encode : Op K V → Option (String × List (Val K V))
   | .setDefaultExpiration d => some ("SetDefaultExpiration", [.int d])
   | .evictedCallback => some ("EvictedCallback", [])
   | .setEvictedCallback c => some ("SetEvictedCallback", [.ecb c])
+  | .getOrComputeSlow k f d δ => some ("GetOrCompute", [.key k, .ufn (.fn0 f δ), .int d])
+  | .computeSlow k g d δ => some ("Compute", [.key k, .ufn (.fn2 g δ), .int d])
   | .tick _ => none
 
 /-- decode the returned values of the method that implements `op` -/
@@ -49,7 +51,8 @@ def decode (op : Op K V) (vs : List (Val K V)) (w : W K V) : Option (Out K V) :=
   | .set .., [] | .setDefault .., [] | .setForever .., [] | .delete _, _ | .deleteExpired, []
   | .rangeNil, [] | .clear, [] | .setDefaultExpiration _, [] | .setEvictedCallback _, [] => some .unit
   | .get _, [v, .bool ok] | .getOrSet .., [v, .bool ok] | .getAndSet .., [v, .bool ok] | .getAndRefresh .., [v, .bool ok]
-  | .getOrCompute .., [v, .bool ok] | .compute .., [v, .bool ok] | .getAndDelete _, [v, .bool ok] =>
+  | .getOrCompute .., [v, .bool ok] | .compute .., [v, .bool ok] | .getAndDelete _, [v, .bool ok]
+  | .getOrComputeSlow .., [v, .bool ok] | .computeSlow .., [v, .bool ok] =>
     (toV v).map fun a => .val a ok
   | .getWithExpiration _, [v, .time e, .bool ok] => (toV v).map fun a => .valExp a e ok
   | .getWithExpiration _, [v, .zeroTime, .bool ok] => (toV v).map fun a => .valExp a 0 ok
